@@ -386,11 +386,21 @@ func TestVerifC15(t *testing.T) {
 			check(s, replayChoices)
 			continue
 		}
-		st := sched.Explore(bound, 20000, body, check)
+		// iterative bounding: the quick bound is always completed first, so a capped deeper pass still leaves a complete lower bound
+		limit := 20000
+		if bound > 2 {
+			st2 := sched.Explore(2, limit, body, check)
+			w.Res.States += int64(st2.Executions)
+			if st2.Capped {
+				w.Cap("%s: execution cap %d reached at preemption bound 2", mn.name, limit)
+			}
+			limit = 400000
+		}
+		st := sched.Explore(bound, limit, body, check)
 		w.Res.States += int64(st.Executions)
 		w.Res.Scenarios++
 		if st.Capped {
-			w.Cap("%s: execution cap 20000 reached", mn.name)
+			w.Cap("%s: execution cap %d reached at preemption bound %d", mn.name, limit, bound)
 		}
 		w.Note("%s: schedules=%d max_points=%d preemptions=%v sequential_outcomes=%d bound=%d", mn.name, st.Executions, st.MaxPoints, st.Preempt, len(seqFinal), bound)
 		if len(w.Res.Samples) < 3 {
